@@ -1,4 +1,5 @@
 import NngModel.Proofs.WsRx
+import NngModel.Generated.C16
 namespace Nng.Ws
 
 def isDelivery : Ev → Bool
